@@ -14,7 +14,7 @@ BOUNDS = {'quick': 'the 6 document structures of C04 (all numbers symbolic); for
                    'position of every structure where it applies',
           'thorough': '10 structures'}
 ASSUMPTIONS = ['R model; one axis of rectangles symbolic', 'overlapping hard rectangles overlap by a clear margin (>= 0.05 x 1)']
-NOT_DECIDED = ['overlaps below the area tolerance', 'text-level YAML errors']
+NOT_DECIDED = ['overlaps below the area tolerance at scales >= 1e-4 (at smaller scales: known finding C05-area-tolerance-small-scale)', 'text-level YAML errors']
 MUST_REACH = ['well-formed', 'defect-rejected']
 DEFECTS = ['hard-overlap-first-last', 'hard-overlap-last-two', 'unknown-module-in-net', 'weight-zero', 'weight-negative', 'area-zero', 'area-negative', 'soft-without-area',
            'hard-with-area', 'hard-without-rectangles', 'hard-overlapping-rectangles', 'unknown-attribute', 'invalid-name',
@@ -37,7 +37,43 @@ def cases(tier):
         for d in DEFECTS:
             for pos in range(3):
                 cs.append(dict(kind='bad', struct=s, defect=d, pos=pos))
+    # a hard module of two w x w rectangles overlapping by a symbolic fraction in [1/4, 3/4] of their area, w = 2 * scale, loaded
+    # with the design's OWN tolerances (nothing inherited)
+    for scale in (1.0, 1e-2, 1e-4, 1e-5, 1e-6):
+        cs.append(dict(kind='small', scale=scale))
     return cs
+
+
+def classify(case, label, values):
+    """the recorded finding: the overlap area is below the library's own area tolerance sqrt(1e-12 * smallest side), which at small
+    scales exceeds a quarter of the rectangles' area; an accepted overlap ABOVE that tolerance is a new violation"""
+    if case.get('kind') == 'small' and label == 'ill-formed-design-rejected:hard-overlap-small-scale' and values and 'ov' in values:
+        from fractions import Fraction
+        w = 2 * case['scale']
+        ov = float(Fraction(values['ov'])) if isinstance(values['ov'], str) else float(values['ov'])
+        if case['scale'] <= 1e-4 and ov * w * w <= (1e-12 * w) ** 0.5 * (1 + 1e-9):
+            return 'C05-area-tolerance-small-scale'
+    return None
+
+
+def body_small(I, case):
+    from frame.geometry.geometry import Rectangle
+    Rectangle.undefine_epsilon()
+    w = 2 * case['scale']
+    ov = I.real('ov', 0.25, 0.75)
+    doc = {'Modules': {'H': {'hard': True, 'rectangles': [[w / 2, w / 2, w, w], [w / 2 + (1 - ov) * w, w / 2, w, w]]}}}
+    try:
+        n = Netlist(doc if I.mode == 'symbolic' else to_text(doc))
+    except AssertionError:
+        I.reached('defect-rejected')
+        return
+    I.detail = f"loaded with area {n.modules[0].area()}"
+    tol = (1e-12 * w) ** 0.5   # the library's own area tolerance for this design
+    from fractions import Fraction
+    # (a) accepted although the overlap exceeds even the library's own tolerance: never excused
+    I.prove('ill-formed-design-rejected:hard-overlap-above-own-tolerance', ov * w * w <= (Fraction(tol) if I.mode == 'symbolic' else tol) * (1 + 1e-9))
+    # (b) accepted at all: the property's clause (the recorded finding at small scales)
+    I.prove('ill-formed-design-rejected:hard-overlap-small-scale', False)
 
 
 def inject(I, tree, specs, defect, pos):
@@ -148,6 +184,8 @@ def inject(I, tree, specs, defect, pos):
 
 
 def body(I, case):
+    if case['kind'] == 'small':
+        return body_small(I, case)
     tree, specs, nspecs = NC.build_doc(I, case['struct'])
     if case['kind'] == 'bad':
         if not inject(I, tree, specs, case['defect'], case['pos']):
